@@ -11,6 +11,9 @@ restored clock value and every post-restart history (gossip, push/pull replays o
 arbitrary buffer images, join replay with or without ignore-old).
 -/
 import SerfModel.Model.EventBuf
+import SerfModel.Gen.RestartCutoff
+import SerfModel.Gen.PushPullReplay
+import SerfProofs.Props.C08
 namespace SerfProofs.C14
 open SerfModel.EventBuf
 open SerfModel.Atomic (W)
@@ -121,5 +124,62 @@ theorem C14_wrap_counterexample :
 example : deliveries (α := Nat) (Buf.start 4 10#64 (9#64 + 1#64))
     [.gossip 9#64 1, .pushPull 12#64 false [some (8#64, [1, 2]), some (10#64, [3])], .gossip 11#64 4]
     = [(10#64, 3), (11#64, 4)] := by decide
+
+/-- **Across the restart, for every pre-restart history.**  Let the node run any
+history `pre` (gossip, push/pull) from any state, let `last` be at least every
+delivered time (the snapshot records the largest user-event time that went through
+the pipeline; C10 covers the file), restart with cut-off `last + 1` and any restored
+clock, and let any history `post` follow: nothing that was delivered before the
+restart is delivered after it. -/
+theorem C14_nothing_delivered_twice_across_restart (N N' : Nat) (c0 m0 c last : W)
+    (hlast : last ≠ BitVec.allOnes 64) (pre post : List (In α))
+    (hsnap : ∀ d ∈ deliveries (Buf.start N c0 m0) pre, d.1 ≤ last) :
+    ∀ d ∈ deliveries (Buf.start N c0 m0) pre, d ∉ deliveries (Buf.start N' c (last + 1#64)) post := by
+  intro d hd
+  exact C14_old_event_dropped N' c last hlast post d.1 d.2 (hsnap d hd)
+
+-- non-vacuity: event (5, 7) delivered before the restart, snapshot time 5, replayed afterwards
+example : (5#64, 7) ∉ deliveries (α := Nat) (Buf.start 2 6#64 (5#64 + 1#64)) [.gossip 5#64 7, .pushPull 0#64 false [some (5#64, [7])]] :=
+  C14_nothing_delivered_twice_across_restart 2 2 1#64 0#64 6#64 5#64 (by decide) [.gossip 5#64 7] _ (by decide) (5#64, 7) (by decide)
+
+/-- **Queries.**  The restarted node's query handler (`handleQuery`, any node name,
+tags, filters, flags and regex oracle) hands to the event channel, and re-broadcasts,
+only queries with a time above the newest one recorded before the restart. -/
+theorem C14_no_query_redelivery (re : SerfModel.QueryHandle.Oracle) (cfg : SerfModel.QueryHandle.NodeCfg)
+    (N : Nat) (c last : W) (hlast : last ≠ BitVec.allOnes 64) (qs : List SerfModel.QueryHandle.QueryMsg) :
+    (∀ d ∈ (SerfModel.QueryHandle.runQ re cfg (Buf.start N c (last + 1#64)) qs).2.1, last < d.1)
+    ∧ (∀ d ∈ (SerfModel.QueryHandle.runQ re cfg (Buf.start N c (last + 1#64)) qs).2.2, last < d.1) := by
+  obtain ⟨_, s1, s2⟩ := SerfProofs.C08.runQ_sublist re cfg qs (Buf.start N c (last + 1#64))
+  exact ⟨fun d hd => C14_no_redelivery N c last hlast _ d (s1.subset hd),
+         fun d hd => C14_no_redelivery N c last hlast _ d (s2.subset hd)⟩
+
+-- non-vacuity: a restarted node (cut-off 10) drops the old query (9, id 1) and delivers (11, id 2)
+example : (SerfModel.QueryHandle.runQ (fun _ _ => none) { name := "n", tags := [] } (Buf.start 4 10#64 (9#64 + 1#64))
+    [{ lt := 9#64, id := 1, flags := 0, name := "q", filters := [] },
+     { lt := 11#64, id := 2, flags := 0, name := "q", filters := [] }]).2.1 = [(11#64, 2)] := by decide
+
+/-- **Source tie (regenerated on every run): the restart cut-offs in `Create`.**
+`serf.eventMinTime = oldEventClock + 1`, `serf.queryMinTime = oldQueryClock + 1` with
+`old*Clock` read from the snapshot, and the clocks restored by `Witness(old*Clock)`
+after the initial `Increment()` — the start state `Buf.start N clock (last + 1)` of
+the theorems above. -/
+theorem C14_gen_restart_cutoff :
+    SerfModel.Gen.RestartCutoff.eventMinTime = "oldEventClock + 1"
+    ∧ SerfModel.Gen.RestartCutoff.queryMinTime = "oldQueryClock + 1"
+    ∧ SerfModel.Gen.RestartCutoff.oldEventClock = "snap.LastEventClock()"
+    ∧ SerfModel.Gen.RestartCutoff.oldQueryClock = "snap.LastQueryClock()"
+    ∧ SerfModel.Gen.RestartCutoff.clockCalls =
+        ["serf.eventClock.Increment()", "serf.queryClock.Increment()",
+         "serf.eventClock.Witness(oldEventClock)", "serf.queryClock.Witness(oldQueryClock)"] := by decide
+
+/-- **Source tie (regenerated on every run): the cut-off is only ever RAISED after the
+restart.**  The only later write of `eventMinTime` (join with ignore-old in
+`MergeRemoteState`) is guarded by `pp.EventLTime > d.serf.eventMinTime` — the test
+`EventBuf.raiseMin` models and `C14_cutoff_monotone` relies on. -/
+theorem C14_gen_cutoff_only_raised :
+    SerfModel.Gen.PushPullReplay.shape.raiseTest = "pp.EventLTime > d.serf.eventMinTime"
+    ∧ SerfModel.Gen.PushPullReplay.shape.raiseAssign = "d.serf.eventMinTime = pp.EventLTime"
+    ∧ SerfModel.Gen.PushPullReplay.shape.raiseGuard = "isJoin && eventJoinIgnore"
+    ∧ SerfModel.Gen.PushPullReplay.shape.order = ["witness", "raise", "replay"] := by decide
 
 end SerfProofs.C14
